@@ -38,6 +38,8 @@ VALUE_CLASSES = {
 }
 NAMESETS = [("a", "b"), ("alpha", "a"), ("x1", "e")]
 NAMESETS_T = [("p0", "p1"), ("p", "pp"), ("n", "x"), ("B", "i")]   # incl. names that collide with declared variables, arrays and loop variables
+# names that mean something to the host language or to SymPy (all are plain NAME tokens of the grammar)
+NAMESETS_HOST = [("lambda", "beta"), ("gamma", "E"), ("I", "S"), ("N", "Q"), ("re", "im"), ("None", "is"), ("oo", "zoo"), ("if", "not"), ("def", "O"), ("values", "kwargs"), ("prog", "v"), ("self", "a"), ("as", "or")]
 
 
 def rename(src, names):
@@ -120,6 +122,8 @@ def judge(src, vv, expect_params):
     try:
         inst = t(**{k: (v if not isinstance(v, list) else [list(row) for row in v]) for k, v in vv.items()})
     except Exception as e:  # noqa
+        if "self" in vv and isinstance(e, TypeError) and "multiple values for argument 'self'" in str(e):
+            return ("C04/parameter-named-self", common.exc_sig(e))
         return ("C04/instantiation-raises:" + type(e).__name__, common.exc_sig(e))
     if inst.parameters or inst.is_template():
         return ("C04/instance-still-has-parameters", repr(sorted(inst.parameters)))
@@ -213,7 +217,7 @@ def build(ctx):
     fam = collections.Counter()
     slots = dict(SLOTS)
     forms = list(FORMS)
-    namesets = list(NAMESETS)
+    namesets = list(NAMESETS) + NAMESETS_HOST
     slots.update(SLOTS_T)
     namesets += NAMESETS_T
     forms_all = forms + FORMS_FN
